@@ -289,6 +289,8 @@ func checkProgs(c *core.Ctx, progs []Prog) {
 		name := fmt.Sprintf("k%05d", i)
 		src, chk := p.source(name)
 		t["p/"+name+"/types.go"] = src
+		// a file that sorts before types.go with documented FUNCTION-LOCAL types named like the package-level ones
+		t["p/"+name+"/a_local.go"] = "package " + name + "\n\nfunc localTwins() int {\n\t// T is a function-local twin with a doc of its own.\n\ttype T struct {\n\t\t// F of the local twin\n\t\tF int\n\t\t// EF of the local twin\n\t\tEF string\n\t}\n\t// E is local too.\n\ttype E struct {\n\t\t// EF local\n\t\tEF int\n\t}\n\t// S is local.\n\ttype S string\n\treturn T{}.F + E{}.EF + len(S(\"\"))\n}\n"
 		checks["p/"+name+"/verif_check.go"] = chk
 		dirs = append(dirs, "p/"+name)
 		byDir["p/"+name] = p
